@@ -59,6 +59,11 @@ def boolAny : List CVal → Except Err CVal
     match r with | .bool r => pure (.bool (b || r)) | _ => .error (.crash "TypeError")
   | _ => .error (.crash "TypeError")
 
+/-- (value, bits) of a bit-vector constant -/
+def pairOf : CVal → Option (Nat × Nat)
+  | .bv x w => some (x, w)
+  | _ => none
+
 def foldOp (op : Op) (vs : List CVal) : Except Err CVal :=
   match op, vs with
   | .add, _ => reduceL (bin add) vs
@@ -91,7 +96,7 @@ def foldOp (op : Op) (vs : List CVal) : Except Err CVal :=
   | .sgt, [a, b] => cmp sgt a b
   | .sge, [a, b] => cmp sge a b
   | .concat, _ =>
-    let pairs := vs.filterMap fun v => match v with | .bv x w => some (x, w) | _ => none
+    let pairs := vs.filterMap pairOf
     if pairs.length = vs.length then let r := concat pairs; .ok (.bv (mask r.2 r.1) r.2)
     else .error (.crash "TypeError")
   | .extract hi lo, [.bv x _] => do let r ← extract hi lo x; pure (.bv r (hi + 1 - lo))
